@@ -59,18 +59,28 @@ P = {
        "exponent literal beyond them is rejected rather than saturated - reading, Appendix B).",
   ref="DESIGN.md section 5 C02"),
  "C09": dict(
-  text="33 Lean theorems about the executable byte-level model of eval's parser and evaluator (nextOperator with the e- hack, "
-       "two-stack reduction, function capture by parenthesis counting, NextArg, replaceVariables, TrimSpace, evaluation with "
-       "symbolic operators): precedence_table on the regenerated operator tables, parse_render and evaluate_render for the FULL "
-       "expression language in every blank layout (atoms incl. exponent literals and variables, nested function calls, all "
-       "binary operators, signs before atoms/calls/groups, parentheses), whitespace_irrelevant, a sign binds its operand only, "
-       "parse_no_panic and evaluate_no_panic / evaluate_total for EVERY byte string (bounded steps), reuse = fresh. Three ties: "
-       "stateful structural differential against a real Evaluator with symbolic functions, tree-walk value oracle with the "
-       "library's own operators over six real evaluators (leaf literals converted independently), whitespace/precedence oracle.",
-  note="operator and function VALUES (fixed/float arithmetic, division by zero as configured, function arity) are the library's "
-       "own and not modelled in Lean (C03/C04 cover the fixed-point arithmetic): tied by the val oracle only; evaluate_render "
-       "needs literal answers for variables inside call arguments; wrong-arity calls are outside 'well-formed'.",
-  ref="DESIGN.md section 5 C09"),
+  text="53 Lean theorems about the executable byte-level model of eval's parser and evaluator (nextOperator with the e- hack "
+       "restricted to numeric literals, two-stack reduction with the evaluator state explicit between calls, function capture "
+       "by parenthesis counting, NextArg, replaceVariables, TrimSpace) and of the FIXED-POINT evaluator's values "
+       "(Model/EvalFixed.lean: FixedFrom for every operand kind through C04's literal parser, the operators || && == != < <= > "
+       ">= + - * / % with their string fall-backs and the configured division by zero, signs, abs ceil floor round max min if, "
+       "all arithmetic being C03's F64 operations): precedence_table on the regenerated operator tables, parse_render and "
+       "evaluate_render for the full expression language in every blank layout, fixed_value_render (Evaluate of a rendered "
+       "well-formed expression = value of its tree, for D1..D16, both division-by-zero settings, every layout), "
+       "fixed_operators_are_f64 / fixed_operators_exact (composition with C03's exactness theorems), div_by_zero_configured, "
+       "sign_on_literal / sign_applies_to_operand_value, whitespace_irrelevant, reuse_eq_fresh for EVERY old evaluator state "
+       "with reuse_after_any_history and the contrast reset_is_needed, parse_no_panic and evaluate_no_panic / evaluate_total "
+       "for every byte string and every resolver whose answers contain no '$' (explicit step budget). Ties: stateful structural "
+       "differential against a real Evaluator with symbolic functions; fxval stream (the model COMPUTES the result text of "
+       "whole expressions for several configurations, compared directly with the code); tree-walk value oracle over ten real "
+       "evaluators (leaf literals converted independently); whitespace/precedence oracle.",
+  note="opaque in the model (values taken from the implementation, tied by the val stream's independent reference): exponent "
+       "literals inside the fixed evaluator, ^, sqrt cbrt exp exp2 log log10 log1p, and the float evaluators altogether; "
+       "resolver hypothesis: answers contain no '$' (replaceVariables re-scans its own output, so a self-referential resolver "
+       "never returns - outside 'resolvers mapping variables to literals', Appendix B); after a REJECTED expression the model "
+       "continues from a fixed placeholder state rather than the true leftover stacks (the theorem covers every old state, the "
+       "driver threads the true state only after successful evaluations); wrong-arity calls are outside 'well-formed'.",
+  ref="DESIGN.md section 5 C09, section 0"),
  "C13": dict(
   text="21 Lean theorems about the executable model of tracelog (entry lists with explicit backing-array aliasing, the group/"
        "needBar/stack walk, sync and buffered delivery) and multilog (fan-out with recovery): format_spec, one_write_per_record, "
